@@ -328,6 +328,7 @@ def schedules(res: Result, rng: random.Random, tier: str, fails: list, div: list
                           "schedule": sched, "real": str(outs)})
         total_runs += 1
     res.count("random schedules", 200 if tier == "quick" else 5000)
+    fresh_generator_threads(res, fails)
     outs = run_driver(lines)
     for line, r, m in zip(lines, reals, outs):
         res.cases += 1
@@ -340,6 +341,64 @@ def schedules(res: Result, rng: random.Random, tier: str, fails: list, div: list
     if lines:
         res.sample({"schedule": lines[len(lines) // 2], "real": reals[len(lines) // 2]})
     res.extra["schedules_executed"] = total_runs
+
+
+def fresh_generator_threads(res: Result, fails: list):
+    """The very first draws on a generator nobody has used yet (a new connection's hop-by-hop generator, a new node's
+    end-to-end generator), by two real threads on the unmodified classes: every line of every function of `_helpers.py`
+    is a scheduling point (sys.settrace), schedules "thread 0 runs k lines, thread 1 runs m lines, thread 0 finishes,
+    thread 1 finishes" for all k, m.  (A thread blocked on the generator's lock simply does not advance.)"""
+    import sys as _sys
+    from valrace import code_objects
+    h = helpers()
+    codes = code_objects(h)
+    cs = set(codes)
+    runs = 0
+    for which in ("seq", "sess"):
+        def fresh():
+            g = h.SequenceGenerator() if which == "seq" else h.SessionGenerator("n.x")
+            g._sequence = 5
+            return g
+        draw = (lambda g: g.next_sequence) if which == "seq" else (lambda g: g.next_id)
+        count = [0]
+
+        def tracer(frame, event, arg):
+            if event == "call" and frame.f_code in cs:
+                def local(fr, ev, ar):
+                    if ev == "line":
+                        count[0] += 1
+                    return local
+                return local
+            return None
+        g = fresh()
+        _sys.settrace(tracer)
+        try:
+            draw(g)()
+        finally:
+            _sys.settrace(None)
+        n = count[0]
+        for k in range(0, n + 1):
+            for m in range(0, n + 1):
+                g = fresh()
+                got = linesched.run_threads([[draw(g)], [draw(g)]], [0] * k + [1] * m + [0] * (n + 2), codes, timeout=0.05)
+                runs += 1
+                vals = [x for r in got for x in r]
+                conv = (lambda x: x) if which == "seq" else sess_value
+                try:
+                    ids = [conv(v) for v in vals]
+                except Exception:  # noqa
+                    ids = vals
+                if len(vals) != 2 or len(set(ids)) != 2 or sorted(ids) != [6, 7]:
+                    fails.append({"what": "the first two draws on a fresh generator, made by two threads at the same time, are not "
+                                          "two distinct consecutive identifiers", "kind": "schedule", "generator": which, "start": 5,
+                                  "threads": 2, "schedule": f"thread 0: {k} lines, thread 1: {m} lines, thread 0 to the end, thread 1 to the end "
+                                                            f"(every line of _helpers.py a scheduling point)", "real": str(ids)})
+                    break
+            else:
+                continue
+            break
+    res.count("fresh generator, two real threads, (k, m) line grid", runs)
+    res.cases += runs
 
 
 def confirm_on_threads(f: dict):
